@@ -3,7 +3,7 @@ import PxModel.DrvParser
 /-
   Driver glue for the reverse-proxy model (first token `rev`).
 
-  `rev run <rewrite 0|1> <connect ok|refused> <table> <matchbits> <picks> <upevents> <seg>...`
+  `rev run <rewrite 0|1> <events 0|1> <connect ok|refused> <table> <matchbits> <picks> <upevents> <seg>...`
 
   table     `E` (no plugin) or plugins joined by `|`; a plugin is `e` (no route) or routes joined by `;`;
             a route is `s.<pat>.<url>,<url>…` (static; `e` for an empty url list),
@@ -19,7 +19,7 @@ namespace Px.Reverse
 
 def errStr : Err → String
   | .indexError => "indexError" | .valueError => "valueError" | .httpProtocol => "httpProtocol"
-  | .assertion => "assertion" | .typeError => "typeError" | .plugin => "plugin"
+  | .assertion => "assertion" | .typeError => "typeError" | .plugin => "plugin" | .keyError => "keyError"
 
 def parseRoute (s : String) : Option Route :=
   match s.splitOn "." with
@@ -93,7 +93,7 @@ def isWebRequest (p : Px.Parser.Parser) : Bool :=
 
 def drv (args : List String) : String :=
   match args with
-  | "run" :: rw :: conn :: table :: bits :: picks :: evs :: segs =>
+  | "run" :: rw :: evq :: conn :: table :: bits :: picks :: evs :: segs =>
     match parseTable table, parsePicks picks, parseEvs evs, Px.Parser.unhexAll segs with
     | some t, some pick, some evs, some segs =>
       match Px.Parser.parseAll {} (Px.Parser.init .request) segs with
@@ -105,7 +105,7 @@ def drv (args : List String) : String :=
         else if (match req.buffer with | some bf => !bf.isEmpty | none => false) then "leftover"
         else
           let cfg : Cfg := { rewriteHost := rw == "1" }
-          let r := onRequestComplete cfg (parseBits bits) pick (conn == "ok") t req {}
+          let r := onRequestCompleteEv cfg (evq == "1") (parseBits bits) pick (conn == "ok") t req {}
           let (s2, rtd) := if r.teardown then (r.st, false) else relay evs r.st
           let s3 := onClientConnectionClose s2
           s!"ok td={b01 r.teardown} exc={excStr r.exc} {stStr r.st} rtd={b01 rtd} rclient={hexList s2.client.buffer} " ++
